@@ -72,7 +72,7 @@ func hostileForms(kind, root string) []string {
 	}
 	// not external at all, but resolvable only by reading the document again as raw data (an
 	// extension area): the one read this may cause is of the root document's own location
-	out = append(out, "#/x-defs/A")
+	out = append(out, "#/x-defs/A", "#/paths/x-shared/A", "#/components/x-more/A")
 	return out
 }
 
@@ -137,7 +137,9 @@ func check(c Case) (o h.Outcome) {
 			if perr == nil {
 				key = memfs.Key(pu)
 			}
-			if key != rootKey || c.Entry == "data" || c.Entry == "datawithpath" {
+			// the root document's own location may be read (again): resolving a fragment that only the
+			// raw document has re-reads it, also when the bytes were handed in with their location
+			if key != rootKey || c.Entry == "data" {
 				o.Fail("read-with-switch-off:"+formClass(c.Form)+"@"+c.PosKind, "with external references disallowed the loader read %q (entry %s, root %q); reference form %q at %s; all reads: %v", u, c.Entry, c.Root, c.Form, c.PosKind, fs.Log)
 				return
 			}
@@ -246,9 +248,20 @@ func setAt(root any, ptr []string, nv any) any {
 func plant(raw M, n metamodel.Node, form string) []byte {
 	d := jv.Clone(raw).(M)
 	setAt(d, n.Ptr, M{"$ref": form})
-	d["x-defs"] = xdefs()
+	plantAreas(d)
 	b, _ := json.Marshal(d)
 	return b
+}
+
+// plantAreas adds extension areas at the root, under paths and under components.
+func plantAreas(d M) {
+	d["x-defs"] = xdefs()
+	if p, ok := d["paths"].(M); ok {
+		p["x-shared"] = xdefs()
+	}
+	if c, ok := d["components"].(M); ok {
+		c["x-more"] = xdefs()
+	}
 }
 
 // xdefs is an extension area holding one object that passes for any kind of component.
@@ -306,7 +319,7 @@ func gen(t *rapid.T) Case {
 		setAt(d, p.Ptr, M{"$ref": form})
 		c.Form, c.PosKind = form, posName(p)
 	}
-	d["x-defs"] = xdefs()
+	plantAreas(d)
 	c.Doc, _ = json.Marshal(d)
 	return c
 }
